@@ -78,7 +78,7 @@ Underscore(nm) == nm \in {"_p", "_kp"} \/ (nm = "M" /\ mpriv)
 
 \* ---- versions ---------------------------------------------------------------------------------------
 Present(v, d) == v.kind[d] # "absent"
-BasePackage(mallc, reexp, withRall, ext, cyc, kbase) ==
+BasePackage(mallc, reexp, withRall, ext, cyc, mal, kbase) ==
   [kind |-> [d \in DefIds |-> CASE d = "M" -> "module" [] d \in {"B", "K"} -> "class" [] d \in {"bm", "f"} -> "function"
                                 [] d \in {"km", "kp", "x", "p"} -> "attribute" [] OTHER -> "absent"],
    val |-> [d \in DefIds |-> "v1"],                 \* value of attributes
@@ -87,10 +87,12 @@ BasePackage(mallc, reexp, withRall, ext, cyc, kbase) ==
    kbase |-> kbase,                                \* class K(B)
    imp |-> reexp,                                  \* names re-exported by pkg/__init__ from M
    ext |-> ext, cyc |-> cyc,                       \* dangling / cyclic re-export present
+   mal |-> mal,                                    \* plain import of the defining module: `import pkg.M as mal`
    hasRall |-> withRall,                           \* pkg/__init__ defines __all__ = re-exported names
-   rall |-> IF withRall THEN reexp \cup (IF ext THEN {"ext"} ELSE {}) \cup (IF cyc THEN {"cyc"} ELSE {}) ELSE {},
+   rall |-> IF withRall THEN reexp \cup (IF ext THEN {"ext"} ELSE {}) \cup (IF cyc THEN {"cyc"} ELSE {})
+                            \cup (IF mal THEN {"mal"} ELSE {}) ELSE {},
    hasMall |-> mallc # "none",                     \* M defines __all__
-   mall |-> CASE mallc = "full" -> {"B", "K", "f", "x"} [] mallc = "part" -> {"K", "f"} [] OTHER -> {}]
+   mall |-> CASE mallc = "full" -> {"B", "K", "f", "x"} [] mallc = "part" -> {"K", "f"} [] OTHER -> {}]   \* "empty": __all__ = []
 
 \* ---- object handles (what the finder holds: an Object or an Alias) -----------------------------------
 \*   def : the definition `id`       imp : re-export alias <site>.<id>       mcyc: alias pkg.M.cyc -> <site>.cyc
@@ -113,6 +115,7 @@ Imports(v) ==          \* the alias members created by the import statements of 
   [i \in 1..Len(SelectSeq(ImportNames, LAMBDA n : n \in v.imp)) |-> H("imp", SelectSeq(ImportNames, LAMBDA n : n \in v.imp)[i], "-")]
   \o (IF v.ext THEN <<H("imp", "ext", "-")>> ELSE <<>>)
   \o (IF v.cyc THEN <<H("imp", "cyc", "-")>> ELSE <<>>)
+  \o (IF v.mal THEN <<H("imp", "mal", "-")>> ELSE <<>>)
 OwnMembers(v, h) ==
   IF h.t = "root"                      \* submodules are attached after the visit of __init__, in sorted order
   THEN (IF site = "root" THEN Imports(v) ELSE <<>>)
@@ -157,6 +160,8 @@ Resolve(v, h) ==
     [] h.t = "imp" /\ h.id \in {"K", "f", "x"} ->
           IF Present(v, "M") /\ Present(v, h.id) THEN [st |-> "ok", h |-> DefH(h.id)]
           ELSE [st |-> "AliasResolutionError", h |-> NoH]
+    [] h.t = "imp" /\ h.id = "mal" ->                                     \* import pkg.M as mal: the module itself
+          IF Present(v, "M") THEN [st |-> "ok", h |-> DefH("M")] ELSE [st |-> "AliasResolutionError", h |-> NoH]
     [] h.t = "imp" /\ h.id = "ext" -> [st |-> "AliasResolutionError", h |-> NoH]    \* extlib is not loaded
     [] OTHER -> [st |-> "CyclicAliasError", h |-> NoH]                     \* pkg.cyc -> pkg.M.cyc -> pkg.cyc
 
@@ -247,6 +252,12 @@ PubPaths(v) ==
    THEN {<<CP("M"), "M">>} \cup UNION {ObjPaths(v, CP(d), d, TRUE) : d \in {k \in ModuleLevel : Present(v, k) /\ RefPublicIn(v, "M", NameOf(k), FALSE)}}
    ELSE {})
   \cup UNION {ObjPaths(v, Append(SitePath, nm), nm, TRUE) : nm \in {k \in v.imp : Present(v, k) /\ RefPublicIn(v, "site", k, TRUE)}}
+  \* the module alias `mal` (when public): the alias itself, the module, and what is public inside the module
+  \cup (IF v.mal /\ Present(v, "M") /\ RefPublicIn(v, "site", "mal", TRUE)
+        THEN LET q == Append(SitePath, "mal")
+             IN {<<q, "mal">>, <<q, "M">>}
+                \cup UNION {ObjPaths(v, Append(q, NameOf(d)), d, TRUE) : d \in {k \in ModuleLevel : Present(v, k) /\ RefPublicIn(v, "M", NameOf(k), FALSE)}}
+        ELSE {})
 \* every access path below the defining module itself (pkg.M....), public or not
 CanonPaths(v) ==
   IF Present(v, "M") THEN {<<CP("M"), "M">>} \cup UNION {ObjPaths(v, CP(d), d, FALSE) : d \in {k \in ModuleLevel : Present(v, k)}} ELSE {}
@@ -272,9 +283,13 @@ Drop(v, ds) == [v EXCEPT !.kind = [d \in DefIds |-> IF d \in ds THEN "absent" EL
 Remove(d) ==
   /\ d \in {"M", "B", "K", "f", "x", "p", "bm", "km", "kp"}
   /\ Present(old, d) /\ Present(new, d)
-  /\ (d = "M" => new.imp = {} /\ ~new.cyc)                          \* nothing imports from it any more
+  /\ (d = "M" => new.imp = {} /\ ~new.cyc /\ ~new.mal)                        \* nothing imports from it any more
   /\ (d = "B" => ~new.kbase \/ new.kind["K"] # "class")             \* no class still derives from it
   /\ LET v2 == Drop(new, {d} \cup Descendants(d)) IN Logged("Remove", d, v2)
+\* "remove the import line" `import pkg.M as mal` (and its __all__ entry): incompatible where the name was public
+RemoveImport ==
+  /\ old.mal /\ new.mal
+  /\ Logged("Remove", "mal", [new EXCEPT !.mal = FALSE, !.rall = @ \ {"mal"}])
 NewKind(d) == CASE d \in {"K", "x", "km"} -> "function" [] OTHER -> "attribute"
 ChangeKind(d) ==
   /\ d \in {"K", "f", "x", "bm", "km"}
@@ -308,21 +323,22 @@ AddReturn(d) ==                                   \* `def f(a): ...` -> `def f(a
   /\ Logged("AddReturn", d, [new EXCEPT !.ret = @ \cup {d}])
 
 \* ---- behaviours --------------------------------------------------------------------------------------
-ReexpChoices == IF BaseFamily = "small" THEN {{"K", "f", "x"}} ELSE {{}, {"f"}, {"K", "x"}, {"K", "f", "x"}}
-MallChoices == IF BaseFamily = "small" THEN {"part"} ELSE {"none", "full", "part"}
+ReexpChoices == IF BaseFamily = "small" THEN {{"K", "f", "x"}} ELSE {{}, {"K", "x"}, {"K", "f", "x"}}
+MallChoices == IF BaseFamily = "small" THEN {"part"} ELSE {"none", "full", "part", "empty"}
 Init ==
   /\ mpriv \in BOOLEAN
   /\ site \in {"root", "sib"}
-  /\ \E mallc \in MallChoices, reexp \in ReexpChoices, withRall \in BOOLEAN, ext \in BOOLEAN, cyc \in BOOLEAN, kbase \in BOOLEAN :
-        /\ (BaseFamily = "small" => ~ext /\ ~cyc /\ kbase)
-        /\ old = BasePackage(mallc, reexp, withRall, ext, cyc, kbase)
+  /\ \E mallc \in MallChoices, reexp \in ReexpChoices, withRall \in BOOLEAN, extras \in BOOLEAN, kbase \in BOOLEAN :
+        \* the three extra imports (dangling, cyclic, `import pkg.M as mal`) come together or not at all
+        /\ (BaseFamily = "small" => extras /\ kbase)
+        /\ old = BasePackage(mallc, reexp, withRall, extras, extras, extras, kbase)
   /\ new = old /\ log = <<>>
   /\ report = Report(old, old)
   /\ pub = PubPaths(old)
   /\ canon = CanonPaths(old)
 
 Next == \/ \E d \in DefIds : Remove(d) \/ ChangeKind(d) \/ ChangeValue(d) \/ AddPublic(d) \/ AddOptKw(d) \/ AddReturn(d)
-        \/ RemoveBase \/ AddBase
+        \/ RemoveBase \/ AddBase \/ RemoveImport
 Spec == Init /\ [][Next]_vars
 
 \* ---- the property ------------------------------------------------------------------------------------
@@ -341,7 +357,7 @@ LiveAny(i) == {q \in AllPathsOf(log[i].id) : ~Hidden(i, q)}
 Masked(i) == LivePublic(i) = {}
 PublicEdit(i) == log[i].op \in Incompatible /\ PublicPathsOf(log[i].id) # {}
 ReportedAt(i, paths) == \E b \in report.out : b[1] = KindFor(log[i].op) /\ b[2] \in paths
-CanonPublic(d) == CP(d) \in PublicPathsOf(d)
+CanonPublic(d) == IF d = "mal" THEN PublicPathsOf(d) # {} ELSE CP(d) \in PublicPathsOf(d)
 
 \* (i) identical copy / only compatible edits / only edits of private objects  =>  nothing reported
 I_CompatSilent == (report.aborted = "no" /\ \A i \in 1..Len(log) : ~PublicEdit(i)) => report.out = {}
